@@ -7,9 +7,13 @@
             changes / change / merge / nN / overlap / altitude keys / fit skeleton), or of the closed form proved equal to it
             (Api.err_e2q, err_e2qa, err_q2e), or of the validation prefix of Api.v where no owner's model is compiled (tiles, EPSG,
             tile and point setters);
+            and, when an error is observed, its KIND (the code of a spatialIdError: InputValueError / OptionFailedError /
+            ValueConvertError / OtherError, or `plain` for any other error value) is the kind Api.kind_<fn> predicts from the order
+            of the checks. The property only asks for a non-nil error, so a wrong kind is a correspondence failure, never a
+            property failure;
      class = a finding class, only when prop fails in exactly the way the class describes (see the end of this header).
    Observed values: list results are observed as their length (VZ n), (int64, int64) results as VL [a; b], booleans as VB,
-   objects as the list of their fields; the error is the VE wrapper. A call whose output would be huge is not made by the harness
+   objects as the list of their fields; an error is VE (VL [payload; VS kind]) (split_err below hands VE payload to the entries). A call whose output would be huge is not made by the harness
    (marker string): such a case is refused here (bad_case), so a shrink candidate of that kind is discarded.
    Finding classes (decidable, narrow; genuine defects of the current tree, each re-confirmed with a concrete Go call):
      setlat_inexact                      the stored latitude is outside [|lat| - 1e-10, |lat|] although the bit-exact model agrees (D20)
@@ -485,10 +489,101 @@ Definition raw_table : table :=
    ("FitClearanceAroundExtendedSpatialID", fun _ => d_fit); ("GetExtendedSpatialIdsWithinRadiusOfLine", d_corridor);
    ("GetVoxelIDfromSpatialID", fun _ => d_voxel)].
 
-(* a call the harness did not make (output bound exceeded, or a shrink candidate of the wrong shape) is never judged *)
+(* ---------- the kind of the error ---------- *)
+Definition split_err (obs : val) : val * option string :=
+  match obs with VE (VL [p; VS c]) => (VE p, Some c) | _ => (obs, None) end.
+Definition nil2 (s e : val) : option bool := match as_points [s; e] with Some (n, _) => Some n | None => None end.
+(* the kind the model predicts IF the call fails (None: the model predicts success or says nothing) *)
+Definition kind_of (fn : string) (args : list val) : option ecode :=
+  let is := String.eqb fn in
+  match args with
+  | [VF lon; VF lat; VF _] => if is "NewPoint" then kind_new_point lon lat else None
+  | [_; VF x] => if is "Point.SetLon" then kind_set_lon x else if is "Point.SetLat" then kind_set_lat x else None
+  | [VS s] => if is "NewExtendedSpatialID" then kind_new_eid s else None
+  | [VS a; VS b] =>
+      if is "ExtendedSpatialID.ResetExtendedSpatialID" then kind_new_eid b
+      else if is "CheckExtendedSpatialIdsOverlap" then kind_ext_overlap a b
+      else if is "CheckSpatialIdsOverlap" then kind_sp_overlap a b else None
+  | [VZ h; VZ _; VZ _; VZ v; VZ z] =>
+      if is "NewTileXYZ" then kind_new_tile h v
+      else if is "ConvertZToMinMaxAltitudekey" || is "ConvertAltitudekeyToMinMaxZ" then Some KInputValue else None
+  | [VL _; VZ z] =>
+      if is "TileXYZ.SetHZoom" || is "TileXYZ.SetVZoom" then kind_tile_set z
+      else if is "ConvertPointListToProjectedPointList" || is "ConvertProjectedPointListToPointList" then Some KValueConvert
+      else if is "ConvertQuadkeysAndVerticalIDsToSpatialIDs" then Some KInputValue
+      else match args with
+           | [VL pl; _] =>
+               if is "GetSpatialIdsOnPoints" then match as_points pl with Some (n, _) => kind_points n z z | None => None end
+               else match as_LS (VL pl) with
+                    | Some ids => if is "ChangeSpatialIdsZoom" || is "MergeSpatialIds" then kind_change_sid ids z else None
+                    | None => None
+                    end
+           | _ => None
+           end
+  | [VL pl; VZ h; VZ v] =>
+      if is "GetExtendedSpatialIdsOnPoints" then match as_points pl with Some (n, _) => kind_points n h v | None => None end
+      else if is "ConvertQuadkeysAndVerticalIDsToExtendedSpatialIDs" then Some KInputValue
+      else match as_LS (VL pl) with
+           | Some ids =>
+               if is "ChangeExtendedSpatialIdsZoom" || is "MergeExtendedSpatialIds" then kind_change_ext ids h v
+               else if is "GetNspatialIdsAroundVoxcels" then kind_nN ids h v else None
+           | None => None
+           end
+  | [VNil; VZ z] => if is "ChangeSpatialIdsZoom" || is "MergeSpatialIds" then kind_change_sid [] z
+                    else if is "GetSpatialIdsOnPoints" then kind_points false z z else None
+  | [VNil; VZ h; VZ v] => if is "ChangeExtendedSpatialIdsZoom" || is "MergeExtendedSpatialIds" then kind_change_ext [] h v
+                          else if is "GetNspatialIdsAroundVoxcels" then kind_nN [] h v
+                          else if is "GetExtendedSpatialIdsOnPoints" then kind_points false h v else None
+  | [s; e; VZ h; VZ v] => if is "GetExtendedSpatialIdsOnLine" then match nil2 s e with Some n => kind_points n h v | None => None end
+                          else if is "ConvertTileXYZsToExtendedSpatialIDs" || is "ConvertTileXYZsToSpatialIDs" then Some KInputValue else None
+  | [s; e; VZ z] => if is "GetSpatialIdsOnLine" then match nil2 s e with Some n => kind_points n z z | None => None end else None
+  | [VS id; VZ opt] => if is "GetPointOnExtendedSpatialId" then kind_point_on_eid id opt
+                       else if is "GetPointOnSpatialId" then kind_point_on_sid id opt else None
+  | [l] => match as_LS l with
+           | Some sl => if is "ConvertSpatialIdsToExtendedSpatialIds" then kind_s2e sl
+                        else if is "ConvertExtendedSpatialIdsToSpatialIds" then kind_e2s sl else None
+           | None => None
+           end
+  | [x; y] => match as_LS x, as_LS y with
+              | Some l1, Some l2 => if is "CheckExtendedSpatialIdsArrayOverlap" then kind_ext_array l1 l2
+                                    else if is "CheckSpatialIdsArrayOverlap" then kind_sp_array l1 l2 else None
+              | _, _ => None
+              end
+  | [_; VZ _; VZ _; VF _; VF _] => Some KInputValue     (* e2q / s2q *)
+  | [_; VZ _; VZ _; VZ _; VZ _] => if is "ConvertExtendedSpatialIDsToQuadkeysAndAltitudekeys" then Some KInputValue else None
+  | [s; e; VF r; VZ h; VZ v; VB _] => match nil2 s e with Some n => kind_corridor n h v r | None => None end
+  | _ => None
+  end.
+Definition kind_of_fit (fn : string) (args : list val) : option ecode :=
+  match args with
+  | [VS id; VF c] => if String.eqb fn "FitClearanceAroundExtendedSpatialID" then kind_fit id c else None
+  | _ => kind_of fn args
+  end.
+
+(* errors.NewSpatialIdError(code, detail).Error() against Api.error_text (not part of the property: prop = true) *)
+Definition d_error_text (args : list val) (obs : val) : verdict :=
+  match args, obs with
+  | [VS code; VS detail], VS t => mkv (String.eqb t (error_text code detail)) true "-" (VS (error_text code detail))
+  | _, _ => bad_case
+  end.
+
+(* a call the harness did not make (output bound exceeded, or a shrink candidate of the wrong shape) is never judged; the kind of an
+   observed error is compared here, for every entry, and counts for corr only *)
 Definition guarded (e : entry) : entry :=
-  (fst e, fun o args obs => if is_skip obs then bad_case else snd e o args obs).
-Definition single_table : table := map guarded raw_table.
+  (fst e, fun o args obs =>
+     if is_skip obs then bad_case else
+     let '(obs', code) := split_err obs in
+     let v := snd e o args obs' in
+     let kind_ok := match code, kind_of_fit (fst e) args with
+                    | Some c, Some k => String.eqb c (ecode_name k)
+                    | _, _ => true
+                    end in
+     let shown := match kind_of_fit (fst e) args, v_model v with
+                  | Some k, VE _ => VE (VS (ecode_name k))
+                  | _, m => m
+                  end in
+     mkv (v_corr v && kind_ok) (v_prop v) (v_class v) shown).
+Definition single_table : table := map guarded (raw_table ++ [("NewSpatialIdError", fun _ => d_error_text)])%list.
 
 (* Sequence: calls made back to back by one invoker (a call must not be influenced by the calls before it: memoised validation, a
    "last validated" cache); args = [VL [VL [VS fn; VL args]; ...]], observed = VL [result; ...]; every call is judged as above *)
